@@ -1,5 +1,6 @@
 import Dbg.Model.Export
 import Dbg.Spec.C03
+import Dbg.Lemmas.GraphSym
 /-! # C20 — Exports and persistence are faithful
 
 Proved for the model of the GFA export (after the repair of D6): every `L` record written for a node is one of the
@@ -109,10 +110,10 @@ def EdgesInRange (g : G D) : Prop :=
 
 /-- **GFA completeness.** On a graph with symmetric edge lists every adjacency — between two nodes, a circular
     self-link, a hairpin self-link on the left or on the right side — is written at least once. -/
-theorem gfa_links_complete (g : G D) (hsym : EdgeSym g) (hrange : EdgesInRange g) (all : List GfaLink) (h : allLinks g = some all)
-    (u : Nat) (d : Dir) (v : Nat) (s : Dir) (f : Bool) (es : List Edge) (hu : u < g.nodes.length)
-    (he : findEdges g u d = some es) (hm : (v, s, f) ∈ es) : Listed all u d v s := by
-  have hv : v < g.nodes.length := hrange u d es he (v, s, f) hm
+theorem gfa_links_complete_of_back (g : G D) (all : List GfaLink) (h : allLinks g = some all)
+    (u : Nat) (d : Dir) (v : Nat) (s : Dir) (f : Bool) (es : List Edge) (hu : u < g.nodes.length) (hv : v < g.nodes.length)
+    (he : findEdges g u d = some es) (hm : (v, s, f) ∈ es)
+    (hback : ∃ es' f', findEdges g v s = some es' ∧ (u, d, f') ∈ es') : Listed all u d v s := by
   have nl : ∀ id, id < g.nodes.length → ∃ ls, nodeLinks g id = some ls := by
     intro id hid
     unfold allLinks at h
@@ -135,7 +136,7 @@ theorem gfa_links_complete (g : G D) (hsym : EdgeSym g) (hrange : EdgesInRange g
       have := mem_nodeLinks_right g u lsu hlu es he (v, s, f) hm hc
       exact Or.inl ⟨_, mem_allLinks g all h u hu lsu hlu _ this, rfl, by simp [GfaLink.side], rfl, rfl⟩
   -- the reciprocal edge, reported from `v`
-  obtain ⟨es', f', he', hm'⟩ := hsym u d v s f es he hm
+  obtain ⟨es', f', he', hm'⟩ := hback
   have fromV : (s = .L → u ≥ v → Listed all u d v s) ∧ (s = .R → (u > v ∨ (u = v ∧ d = .R)) → Listed all u d v s) := by
     constructor
     · intro hs hge
@@ -161,6 +162,234 @@ theorem gfa_links_complete (g : G D) (hsym : EdgeSym g) (hrange : EdgesInRange g
   · cases s with
     | L => exact fromV.1 rfl (by omega)
     | R => exact fromV.2 rfl (Or.inl hgt)
+
+theorem gfa_links_complete (g : G D) (hsym : EdgeSym g) (hrange : EdgesInRange g) (all : List GfaLink) (h : allLinks g = some all)
+    (u : Nat) (d : Dir) (v : Nat) (s : Dir) (f : Bool) (es : List Edge) (hu : u < g.nodes.length)
+    (he : findEdges g u d = some es) (hm : (v, s, f) ∈ es) : Listed all u d v s :=
+  gfa_links_complete_of_back g all h u d v s f es hu (hrange u d es he (v, s, f) hm) he hm (hsym u d v s f es he hm)
+
+/-- **GFA completeness from the node-level invariant.** In a graph satisfying `GInv`, every adjacency between two nodes
+    neither of which is a single-k-mer node (the two sides of a palindromic one are indistinguishable) is written. -/
+theorem gfa_links_complete_ginv (g : G D) (hg : GInv g) (all : List GfaLink) (h : allLinks g = some all)
+    (u : Nat) (d : Dir) (v : Nat) (s : Dir) (f : Bool) (es : List Edge)
+    (he : findEdges g u d = some es) (hm : (v, s, f) ∈ es)
+    (hnu : ∀ nu, g.nodes[u]? = some nu → nu.seq.length ≠ g.K) (hnv : ¬ PalNode g v) : Listed all u d v s := by
+  obtain ⟨hus, hvs⟩ := findEdges_nodes g u d es he
+  have hu : u < g.nodes.length := by
+    obtain ⟨n, hn⟩ := Option.isSome_iff_exists.mp hus; exact getElem?_lt hn
+  have hv : v < g.nodes.length := by
+    obtain ⟨n, hn⟩ := Option.isSome_iff_exists.mp (hvs _ hm); exact getElem?_lt hn
+  obtain ⟨s', es', d', f', he', hm', hs', hd'⟩ := edges_symmetric g hg u d es he v s f hm
+  have e1 : s' = s := by rcases hs' with h1 | h1; exact h1; exact absurd h1 hnv
+  have e2 : d' = d := by
+    rcases hd' with h1 | ⟨nu, h1, h2⟩
+    · exact h1
+    · exact absurd h2 (hnu nu h1)
+  subst e1; subst e2
+  exact gfa_links_complete_of_back g all h u d' v s' f es hu hv he hm ⟨es', f', he', hm'⟩
+
+/-- two records name the same pair of ports -/
+def SamePorts (a b : GfaLink) : Prop :=
+  (a.src = b.src ∧ a.side = b.side ∧ a.dst = b.dst ∧ a.toSide = b.toSide) ∨
+  (a.src = b.dst ∧ a.side = b.toSide ∧ a.dst = b.src ∧ a.toSide = b.side)
+
+theorem extend_inj (t : Seq) (b1 b2 : Compress.Base) (d : Dir) (h : Compress.extend t b1 d = Compress.extend t b2 d) : b1 = b2 := by
+  cases d with
+  | L =>
+    have : Compress.extendLeft t b1 = Compress.extendLeft t b2 := h
+    unfold Compress.extendLeft at this
+    exact (List.cons.inj this).1
+  | R =>
+    have : Compress.extendRight t b1 = Compress.extendRight t b2 := h
+    unfold Compress.extendRight at this
+    have := List.append_cancel_left this
+    exact (List.cons.inj this).1
+
+/-- the edges reported from one side of a node go to pairwise different ports (for every graph) -/
+theorem edges_ports_nodup (g : G D) (u : Nat) (d : Dir) (es : List Edge) (he : findEdges g u d = some es) :
+    (es.map fun e => (e.1, e.2.1)).Nodup := by
+  unfold findEdges at he
+  cases hn : g.nodes[u]? with
+  | none => rw [hn] at he; cases he
+  | some nd =>
+    rw [hn] at he
+    simp only [Option.some.injEq] at he
+    subst he
+    -- distinct bases resolve to distinct ports
+    have key : ∀ (bs : List Compress.Base), bs.Nodup →
+        ((bs.filterMap fun b => if nd.exts.hasExt d b.val then findLink g (Compress.extend (termKmer g.K nd.seq d) b d) d else none).map
+          fun e => (e.1, e.2.1)).Nodup := by
+      intro bs
+      induction bs with
+      | nil => intro _; simp
+      | cons b t ih =>
+        intro hnd
+        rw [List.nodup_cons] at hnd
+        rw [List.filterMap_cons]
+        cases hb : (if nd.exts.hasExt d b.val then findLink g (Compress.extend (termKmer g.K nd.seq d) b d) d else none) with
+        | none => exact ih hnd.2
+        | some e =>
+          simp only [List.map_cons, List.nodup_cons]
+          refine ⟨?_, ih hnd.2⟩
+          intro hmem
+          obtain ⟨e', he', hpe⟩ := List.mem_map.mp hmem
+          rw [List.mem_filterMap] at he'
+          obtain ⟨b', hb't, hb'⟩ := he'
+          -- both bases resolved to the same port: same flip, hence the same extended k-mer
+          have hl1 : findLink g (Compress.extend (termKmer g.K nd.seq d) b d) d = some e := by
+            split at hb
+            · exact hb
+            · cases hb
+          have hl2 : findLink g (Compress.extend (termKmer g.K nd.seq d) b' d) d = some e' := by
+            split at hb'
+            · exact hb'
+            · cases hb'
+          obtain ⟨n1, hn1, ht1, hf10, hf11⟩ := findLink_sound g _ _ e.1 e.2.1 e.2.2 hl1
+          obtain ⟨n2, hn2, ht2, hf20, hf21⟩ := findLink_sound g _ _ e'.1 e'.2.1 e'.2.2 hl2
+          simp only [Prod.mk.injEq] at hpe
+          have hflip : e'.2.2 = e.2.2 := by
+            cases h1 : e.2.2 <;> cases h2 : e'.2.2
+            · rfl
+            · have a := hf10 h1; have b := (hf21 h2).1; rw [hpe.2, a] at b; cases d <;> simp [Dir.flip] at b
+            · have a := (hf11 h1).1; have b := hf20 h2; rw [hpe.2, a] at b; cases d <;> simp [Dir.flip] at b
+            · rfl
+          rw [hpe.1] at hn2
+          rw [hn1] at hn2; cases hn2
+          rw [hpe.2, hflip] at ht2
+          have hkm : Compress.extend (termKmer g.K nd.seq d) b d = Compress.extend (termKmer g.K nd.seq d) b' d := by
+            cases hf : e.2.2
+            · rw [hf] at ht1 ht2; simp only [Bool.false_eq_true, if_false] at ht1 ht2; rw [← ht1, ← ht2]
+            · rw [hf] at ht1 ht2; simp only [if_true] at ht1 ht2
+              have := ht1.symm.trans ht2
+              have h' := congrArg Compress.rc this
+              rwa [Compress.rc_rc, Compress.rc_rc] at h'
+          have := extend_inj _ _ _ _ hkm
+          subst this
+          exact hnd.1 hb't
+    exact key base4 (by decide)
+
+theorem mapM_some_getElem {α β : Type} (f : α → Option β) :
+    ∀ (l : List α) (r : List β), l.mapM f = some r → r.length = l.length ∧ ∀ (i : Nat) (h1 : i < l.length) (h2 : i < r.length), f l[i] = some r[i] := by
+  intro l
+  induction l with
+  | nil => intro r h; simp at h; subst h; exact ⟨rfl, fun i h1 => by simp at h1⟩
+  | cons a t ih =>
+    intro r h
+    rw [List.mapM_cons] at h
+    cases hfa : f a with
+    | none => simp [hfa] at h
+    | some b =>
+      cases ht : t.mapM f with
+      | none => simp [hfa, ht] at h
+      | some bs =>
+        simp only [hfa, ht, Option.bind_eq_bind, Option.bind_some, Option.pure_def, Option.some.injEq] at h
+        subst h
+        obtain ⟨hl, hi⟩ := ih bs ht
+        refine ⟨by simp [hl], fun i h1 h2 => ?_⟩
+        cases i with
+        | zero => simpa using hfa
+        | succ i => simpa using hi i (by simpa using h1) (by simpa using h2)
+
+/-- what a record of node `id` looks like -/
+theorem nodeLinks_shape (g : G D) (id : Nat) (ls : List GfaLink) (h : nodeLinks g id = some ls) (l : GfaLink) (hl : l ∈ ls) :
+    l.src = id ∧ (l.plus = false → l.dst ≥ id) ∧ (l.plus = true → (l.dst > id ∨ (l.dst = id ∧ l.toSide = .R))) := by
+  unfold nodeLinks at h
+  cases hL : findEdges g id .L with
+  | none => simp [hL] at h
+  | some le =>
+    cases hR : findEdges g id .R with
+    | none => simp [hL, hR] at h
+    | some re =>
+      simp only [hL, hR, Option.some.injEq] at h
+      subst h
+      rcases List.mem_append.mp hl with h1 | h1
+      · obtain ⟨e, he, rfl⟩ := List.mem_map.mp h1
+        have := (List.mem_filter.mp he).2
+        exact ⟨rfl, fun _ => by simpa using this, fun hc => by simp at hc⟩
+      · obtain ⟨e, he, rfl⟩ := List.mem_map.mp h1
+        have := (List.mem_filter.mp he).2
+        exact ⟨rfl, fun hc => by simp at hc, fun _ => by simpa using this⟩
+
+/-- within the records of one node no port pair is named twice -/
+theorem nodeLinks_pairwise (g : G D) (id : Nat) (ls : List GfaLink) (h : nodeLinks g id = some ls) :
+    ls.Pairwise (fun a b => ¬ SamePorts a b) := by
+  have hshape := nodeLinks_shape g id ls h
+  unfold nodeLinks at h
+  cases hL : findEdges g id .L with
+  | none => simp [hL] at h
+  | some le =>
+    cases hR : findEdges g id .R with
+    | none => simp [hL, hR] at h
+    | some re =>
+      simp only [hL, hR, Option.some.injEq] at h
+      have ndL := edges_ports_nodup g id .L le hL
+      have ndR := edges_ports_nodup g id .R re hR
+      -- records made from a duplicate-free list of edges on one side
+      have side : ∀ (es : List Edge) (plus : Bool), (es.map fun e => (e.1, e.2.1)).Nodup →
+          (es.map fun e => (⟨id, plus, e.1, e.2.1⟩ : GfaLink)).Pairwise (fun a b => ¬ SamePorts a b) := by
+        intro es plus hnd
+        rw [List.pairwise_map]
+        rw [List.Nodup, List.pairwise_map] at hnd
+        apply hnd.imp
+        intro e1 e2 hne hsp
+        rcases hsp with ⟨_, _, h3, h4⟩ | ⟨h1, h2, h3, h4⟩
+        · exact hne (by simp only at h3 h4; exact Prod.ext h3 h4)
+        · simp only [GfaLink.side] at h1 h2 h3 h4
+          exact hne (by
+            apply Prod.ext
+            · show e1.1 = e2.1; rw [h3, ← h1]
+            · show e1.2.1 = e2.2.1; rw [h4, ← h2])
+      subst h
+      rw [List.pairwise_append]
+      refine ⟨side _ false (ndL.sublist ((List.filter_sublist).map _)), side _ true (ndR.sublist ((List.filter_sublist).map _)), ?_⟩
+      intro a ha b hb hsp
+      obtain ⟨ea, hea, rfl⟩ := List.mem_map.mp ha
+      obtain ⟨eb, heb, rfl⟩ := List.mem_map.mp hb
+      have hq := (List.mem_filter.mp heb).2
+      rcases hsp with ⟨_, h2, _, _⟩ | ⟨h1, h2, h3, h4⟩
+      · simp [GfaLink.side] at h2
+      · simp only [GfaLink.side, if_true, Bool.false_eq_true, if_false] at h1 h2 h3 h4
+        -- the right-side record would be `(id, R) -> (id, L)`, which the right-side filter never writes
+        simp only [decide_eq_true_eq] at hq
+        rcases hq with hq | ⟨_, hq⟩
+        · omega
+        · rw [← h2] at hq; cases hq
+
+/-- **GFA: no adjacency twice.** For every graph, no two `L` records of the export name the same pair of ports (in
+    either order): a link between different nodes is written by the lower-numbered node only, a circular self-link from
+    the left side only, hairpin self-links once from their own side. -/
+theorem gfa_no_duplicate (g : G D) (all : List GfaLink) (h : allLinks g = some all) :
+    all.Pairwise (fun a b => ¬ SamePorts a b) := by
+  unfold allLinks at h
+  cases hm : (List.range g.nodes.length).mapM (nodeLinks g) with
+  | none => simp [hm] at h
+  | some lss =>
+    simp only [hm, Option.map_some, Option.some.injEq] at h
+    subst h
+    obtain ⟨hlen, hget⟩ := mapM_some_getElem (nodeLinks g) _ lss hm
+    simp only [List.length_range] at hlen
+    have hnode : ∀ (i : Nat) (hi : i < lss.length), nodeLinks g i = some lss[i] := by
+      intro i hi
+      have := hget i (by simp; omega) hi
+      simpa using this
+    rw [List.pairwise_flatten]
+    constructor
+    · intro ls hls
+      obtain ⟨i, hi, rfl⟩ := List.getElem_of_mem hls
+      exact nodeLinks_pairwise g i _ (hnode i hi)
+    · rw [List.pairwise_iff_getElem]
+      intro i j hi hj hij a ha b hb hsp
+      obtain ⟨sa, _, _⟩ := nodeLinks_shape g i _ (hnode i hi) a ha
+      obtain ⟨sb, fb0, fb1⟩ := nodeLinks_shape g j _ (hnode j hj) b hb
+      rcases hsp with ⟨h1, _, _, _⟩ | ⟨h1, _, h3, _⟩
+      · omega
+      · -- `b` would be written by the higher-numbered node towards the lower-numbered one
+        cases hp : b.plus with
+        | false => have := fb0 hp; omega
+        | true =>
+          rcases fb1 hp with h' | ⟨h', _⟩
+          · omega
+          · omega
 
 /-- one `S` record per node, in order, with the node's sequence (by construction of `write_gfa`) -/
 theorem gfa_segment (g : G D) (id : Nat) (txt : String) (h : nodeToGfa g id = some txt) :
